@@ -242,6 +242,8 @@ def cmp_hs_dial(prop, case, impl, model):
         return [('violation', 'hs-dial:conn-with-error', 'Dial returned an error AND a connection')]
     if impl.get('keyok') != '1':
         return [('violation', 'hs-dial:key', 'the Sec-WebSocket-Key sent is not one base64 value of 16 bytes')]
+    if impl.get('hdrkept', '1') != '1':
+        return [('violation', 'hs-dial:caller-headers-modified', 'Dial modified the header map the caller passed in DialOptions.HTTPHeader')]
     return _cmp_fields('hs-dial', ['ok', 'subproto', 'co', 'method', 'host', 'req'], {})(prop, case, impl, model)
 
 def cmp_sched(prop, case, impl, model):
